@@ -30,8 +30,8 @@ BUDGET_S = {'quick': 900, 'thorough': 3300}
 
 SKELETONS = {
     'article': ('article', ['x0 \\ref{s2}', ('section', 's1', 'a\\footnote{f1} \\ref{ss1}'), ('subsection', 'ss1', 'b\\footnote{f2}\\begin{equation}y\\label{eq1}\\end{equation}'),
-                            ('subsubsection', 'sss1', 'c\\footnote{f3} \\ref{s1}'), ('section', 's2', 'd \\ref{eq1} \\ref{sss1}'), ('subsection', 'ss2', 'e \\ref{ss1}\\footnote{f4}')]),
-    'book': ('book', [('chapter', 'c1', 'a \\ref{s2}'), ('section', 's1', 'b\\footnote{f1}'), ('subsection', 'ss1', 'c\\footnote{f2} \\ref{c2}'), ('chapter', 'c2', 'd \\ref{ss1}'),
+                            ('subsubsection', 'sss1', 'c\\footnote{f3} \\ref{s1} \\ref{s2}'), ('section', 's2', 'd \\ref{eq1} \\ref{sss1}'), ('subsection', 'ss2', 'e \\ref{ss1}\\footnote{f4}')]),
+    'book': ('book', [('chapter', 'c1', 'a \\ref{s2}'), ('section', 's1', 'b\\footnote{f1} \\ref{c2}'), ('subsection', 'ss1', 'c\\footnote{f2} \\ref{c2}'), ('chapter', 'c2', 'd \\ref{ss1}'),
                       ('section', 's2', 'e\\footnote{f3} \\ref{s1}')]),
     'deep': ('article', [('section', 's1', 'a'), ('subsection', 'ss1', 'b'), ('subsubsection', 'sss1', 'c\\footnote{f1}'), ('paragraph', 'p1', 'd\\footnote{f2} \\ref{s1}'),
                          ('section', 's2', '\\ref{p1} \\ref{sss1}')]),
